@@ -545,6 +545,15 @@ func init() {
 		}
 		return nil
 	}
+	// unsafe string<->[]byte views of the msgpack library: the same bytes under the other type
+	intrinsics["github.com/vmihailenco/msgpack/v4.stringToBytes"] = func(ex *Exec, fr *frame, fn *ssa.Function, args []Value) Value {
+		v := args[0].(View)
+		v.Cap = v.Len
+		return v
+	}
+	intrinsics["github.com/vmihailenco/msgpack/v4.bytesToString"] = func(ex *Exec, fr *frame, fn *ssa.Function, args []Value) Value {
+		return args[0]
+	}
 	intrinsics["os/signal.Notify"] = func(ex *Exec, fr *frame, fn *ssa.Function, args []Value) Value { return nil }
 	intrinsics["os/signal.Stop"] = func(ex *Exec, fr *frame, fn *ssa.Function, args []Value) Value { return nil }
 }
